@@ -116,6 +116,8 @@ pub enum KeySpec {
     PathRefE9(Path<String, 'é'>),
     PathRef1F600(Path<String, '😀'>),
     Json(JsonPath<String>),
+    /// keys from an iterator that is NOT fused: it yields `None` at each hole and goes on afterwards (`N:k,-,k`)
+    Holey(Vec<Option<K>>),
     Packed(usize),
     Chain(Box<KeySpec>, Box<KeySpec>),
 }
@@ -150,6 +152,8 @@ pub fn parse_keyspec(s: &str) -> Option<(KeySpec, &str)> {
             0x1F600 => KeySpec::PathRef1F600(Path(text)),
             _ => return None,
         }
+    } else if let Some(r) = tok.strip_prefix("N:") {
+        KeySpec::Holey(r.split(',').map(|t| if t == "-" { Some(None) } else { parse_k(t).map(Some) }).collect::<Option<Vec<_>>>()?)
     } else if let Some(r) = tok.strip_prefix("J:") {
         KeySpec::Json(JsonPath(dec_str(r)?))
     } else if let Some(r) = tok.strip_prefix("Q:") {
@@ -183,10 +187,25 @@ impl KeySpec {
             KeySpec::PathRef2E(p) => Box::new(p.into_keys()),
             KeySpec::PathRefE9(p) => Box::new(p.into_keys()),
             KeySpec::PathRef1F600(p) => Box::new(p.into_keys()),
+            KeySpec::Holey(v) => Box::new(HoleyIter(v, 0).into_keys()),
             KeySpec::Json(jp) => Box::new(jp.into_keys()),
             KeySpec::Packed(w) => Box::new(Packed::new(*w)?),
             KeySpec::Chain(a, b) => Box::new(DynKeys(a.keys()?).chain(DynKeys(b.keys()?))),
         })
+    }
+}
+
+/// an iterator over keys that resumes after having returned `None` (what `map_while` / `from_fn` adapters may do)
+pub struct HoleyIter<'a>(&'a [Option<K>], usize);
+impl<'a> Iterator for HoleyIter<'a> {
+    type Item = &'a K;
+    fn next(&mut self) -> Option<&'a K> {
+        let i = self.1;
+        if i >= self.0.len() {
+            return None;
+        }
+        self.1 += 1;
+        self.0[i].as_ref()
     }
 }
 
